@@ -273,6 +273,11 @@ func (st *Store) Eq(a, b *Term) *Term {
 	if a.IsConst() && b.IsConst() {
 		return st.BoolC(false) // hash-consed: distinct constants
 	}
+	if a.Op == OIte || b.Op == OIte {
+		if r, ok := st.EqFinite(a, b); ok {
+			return r
+		}
+	}
 	if a.Sort.K == KBool {
 		if a.IsConst() {
 			a, b = b, a
@@ -671,6 +676,33 @@ func (st *Store) Sext(a *Term, extra int) *Term {
 // ---- strings / ints ----
 
 func (st *Store) StrConcat(parts ...*Term) *Term {
+	// distribute over finite ite-trees so that finite-domain strings stay finite
+	prod, anyIte := 1, false
+	for _, p := range parts {
+		n := LeafCount(p, 64)
+		if n == 0 {
+			prod = 0
+			break
+		}
+		if p.Op == OIte {
+			anyIte = true
+		}
+		prod *= n
+		if prod > 256 {
+			prod = 0
+			break
+		}
+	}
+	if anyIte && prod > 0 {
+		var rec func(i int, acc string) *Term
+		rec = func(i int, acc string) *Term {
+			if i == len(parts) {
+				return st.StrC(acc)
+			}
+			return st.MapLeaves(parts[i], func(l *Term) *Term { return rec(i+1, acc+l.S) })
+		}
+		return rec(0, "")
+	}
 	var out []*Term
 	for _, p := range parts {
 		if p.Op == OStrConcat {
@@ -886,4 +918,44 @@ func (t *Term) Pretty(limit int) string {
 		s = s[:limit] + "…"
 	}
 	return s
+}
+
+// ---- finite ite-trees over constants (finite-domain values) ----
+
+// LeafCount returns the number of leaves if t is an ite-tree whose leaves are all constants, else 0.
+func LeafCount(t *Term, limit int) int {
+	switch t.Op {
+	case OConst:
+		return 1
+	case OIte:
+		a := LeafCount(t.Args[1], limit)
+		if a == 0 {
+			return 0
+		}
+		b := LeafCount(t.Args[2], limit)
+		if b == 0 || a+b > limit {
+			return 0
+		}
+		return a + b
+	}
+	return 0
+}
+
+// MapLeaves applies f to every constant leaf of a finite ite-tree and rebuilds the tree.
+func (st *Store) MapLeaves(t *Term, f func(leaf *Term) *Term) *Term {
+	if t.Op == OConst {
+		return f(t)
+	}
+	return st.Ite(t.Args[0], st.MapLeaves(t.Args[1], f), st.MapLeaves(t.Args[2], f))
+}
+
+// EqFinite expands equality over finite ite-trees so that no string (or wide) theory atom remains.
+func (st *Store) EqFinite(a, b *Term) (*Term, bool) {
+	na, nb := LeafCount(a, 64), LeafCount(b, 64)
+	if na == 0 || nb == 0 || na*nb > 1024 || (na == 1 && nb == 1) {
+		return nil, false
+	}
+	return st.MapLeaves(a, func(x *Term) *Term {
+		return st.MapLeaves(b, func(y *Term) *Term { return st.BoolC(x == y) })
+	}), true
 }
